@@ -270,7 +270,10 @@ def run_atheris(spec, rec):
     import sys
     from .. import env
     script = os.path.join(env.VERIF, 'hl7mon', 'atheris_c15.py')
-    if not os.path.exists(script):
+    try:
+        from ..runner import ensure_deps
+        ensure_deps(('atheris',))
+    except Exception:
         rec.count('atheris_unavailable')
         return
     try:
@@ -278,8 +281,16 @@ def run_atheris(spec, rec):
                            env=env.child_env(), cwd=env.VERIF, stdout=subprocess.PIPE, stderr=subprocess.STDOUT,
                            timeout=spec['secs'] + 300)
         out = p.stdout.decode('utf-8', 'replace')
-        rec.extra['atheris_tail'] = out[-600:]
-        rec.count('atheris_runs')
+        rec.extra['atheris_tail'] = out[-300:]
+        if 'ATHERIS-UNAVAILABLE' in out:
+            rec.count('atheris_unavailable')
+            return
+        rec.count('atheris_sessions')
+        import re
+        mm = re.search(r'Done (\d+) runs', out)
+        if mm:
+            rec.count('atheris_executions', int(mm.group(1)))
+            rec.evaluation(('atheris-session', mm.group(1)), n=int(mm.group(1)))
         for line in out.splitlines():
             if line.startswith('LEAK '):
                 import json
